@@ -48,9 +48,21 @@ def _storage(kind, d):
 # ---------------------------------------------------------------------------- hash files
 
 
+# pairs of different keys of equal length whose full 32-bit hash is equal, per hash type (md5, crc32, cdb); found by a
+# seeded birthday search and re-verified at run time (a pair that no longer collides is simply an ordinary key pair)
+COLLIDERS = {
+    0: [("vgdphbve", "otrrxhtk"), ("huwmbbtg", "wqfhmwea"), ("qwnfctkc", "vphwmiye")],
+    1: [("hotjzpsr", "iwoffbzx"), ("hybrlkql", "gxnlbcjc"), ("ejxvszdj", "uuqyyozl")],
+    2: [("ojqbdaui", "kicxkyjn"), ("lewzsjqf", "rlgxfmtt"), ("faeccxuk", "uldgvmpu")],
+}
+
+
 def hash_strategy(tier):
     n = 300 if tier == "quick" else 700
     return st.fixed_dictionaries({
+        # which colliding pairs take part: both keys stored / only the first stored and the second probed as absent
+        "colliders": st.lists(st.tuples(st.integers(0, 2), st.sampled_from(["both", "first_only", "second_only"])).map(list),
+                              max_size=3),
         "hashtype": st.sampled_from([0, 1, 2]),
         "pairs": st.lists(st.tuples(key_s, val_s).map(list), max_size=n),
         "probes": st.lists(key_s, max_size=10),
@@ -62,6 +74,19 @@ def hash_strategy(tier):
 def run_hash(case, out):
     from whoosh.filedb.filetables import HashWriter, HashReader, _hash_functions
     pairs = [(lb(k), lb(v)) for k, v in case["pairs"]]
+    extra_probes = []
+    collide = False
+    for ci, (idx, mode) in enumerate(case.get("colliders", [])):
+        k1, k2 = [lb(x) for x in COLLIDERS[case["hashtype"]][idx]]
+        fn = _hash_functions[case["hashtype"]]
+        if fn(k1) == fn(k2):
+            collide = True
+        at = (ci * 7) % (len(pairs) + 1)
+        if mode in ("both", "first_only"):
+            pairs.insert(at, (k1, b"value-of-" + k1))
+        if mode in ("both", "second_only"):
+            pairs.insert(min(len(pairs), at + 2), (k2, b"value-of-" + k2))
+        extra_probes += [k1, k2]
     if case["big"] and pairs:
         i, ln = case["big"]
         i %= len(pairs)
@@ -92,7 +117,7 @@ def run_hash(case, out):
                     out.fail("hash.all", [repr(k), repr(vs)[:200]])
                 if hr[k] != vs[0] or hr.get(k) != vs[0] or k not in hr:
                     out.fail("hash.getitem", repr(k))
-            probes = [lb(p) for p in case["probes"]] + [k + b"\x00" for k in list(model)[:5]] + \
+            probes = extra_probes + [lb(p) for p in case["probes"]] + [k + b"\x00" for k in list(model)[:5]] + \
                      [k[:-1] for k in list(model)[:5] if k]
             for p in probes:
                 if p in model:
@@ -116,6 +141,8 @@ def run_hash(case, out):
     out.label("hashtype%d" % case["hashtype"], case["store"])
     if shared:
         out.label("bucket_shared")
+    if collide:
+        out.label("full_hash_collision")
     if dup:
         out.label("dup_key")
     if sum(len(k) + len(v) + 8 for k, v in pairs) > 65536:
